@@ -150,6 +150,11 @@ func vGoInline(fn string)   {}
 func vInjective(uf string)  {}
 func vUnwind(n int)         {}
 func vAssumption(s string)  {}
+func vReplace(fn, by string) {}
+
+// vNative is false under the symbolic engine and true in native replay: it
+// guards oracles that only the native run can evaluate (math/big).
+func vNative() bool { return true }
 
 // vHash is an ideal hash: an uninterpreted function symbolically, SHA-256
 // (domain-separated by name and length-prefixed parts, truncated/extended to
